@@ -186,6 +186,11 @@ def workdir(prefix, key):
     return tempfile.mkdtemp(prefix=odd + prefix)
 
 
+def zname(base, key, choices=(".gz", ".bgz", ".bgzf", "")):
+    """name of a BGZF-compressed file: compression is recognised by content, the suffix is the user's business"""
+    return base + choices[zlib.crc32(("zname" + str(key)).encode()) % len(choices)]
+
+
 def eol_for(key):
     """input files end with a newline in two cases of three; in the third the last record is not newline-terminated
     (valid, and what some pipelines produce) - chosen by a stable hash of the case id"""
@@ -350,8 +355,10 @@ def alarm(seconds):
 class _Capture(io.StringIO):
     """a stdout/stderr stand-in that survives close() (gaftools sort closes the writer it was given)"""
 
+    was_closed = False
+
     def close(self):
-        pass
+        self.was_closed = True      # remembered: only `sort` closes the stream it writes to (it always did)
 
 
 def run_cli(argv, timeout=20, cwd_rel=None):
@@ -448,6 +455,11 @@ def run_cli(argv, timeout=20, cwd_rel=None):
     finally:
         res["stdout"] = sys.stdout.getvalue()
         res["stderr"] = sys.stderr.getvalue()[-2000:]
+        if getattr(sys.stdout, "was_closed", False) and res["status"] == "ok" and not any(a == "sort" for a in argv[:2]):
+            # the command closed the process's standard output: the next call made in this process (a library user, a test, a
+            # notebook) cannot write its records any more
+            res["status"] = "exception"
+            res["exc"] = "ValueError: the command closed sys.stdout - a second call in the same process fails with 'I/O operation on closed file'"
         if to_file is not None:
             with open(to_file, "w", encoding="utf-8") as f:
                 f.write(res["stdout"])
